@@ -59,7 +59,7 @@ theorem futex_inv (hr : Reach (sys B) Init c) :
     · have := hwl.2.2
       rw [hlw.2] at this
       rw [this, hmk]
-    · exact List.count_eq_one_of_mem (ha.list_nodup n hn) hw
+    · rw [(ha.list_nodup n hn).count, if_pos hw]
     · intro n' hn' hw'
       have := (ha.list_ok n' w hn' hw').2.2
       rw [hs] at this
@@ -98,7 +98,7 @@ theorem node_freed_only_when_empty (hr : Reach (sys B) Init c) {t : Tid} {g' : G
     split at hdead
     · subst_vars; simp only at hdead; rw [hlive] at hdead; cases hdead
     · rw [hlive] at hdead; cases hdead
-  all_goals (simp only at hdead; rw [hlive] at hdead; cases hdead)
+  all_goals (have hd2 : (c.g.nodes n).live = false := hdead; rw [hlive] at hd2; cases hd2)
 
 /-! ### futex_no_uaf -/
 
@@ -317,10 +317,12 @@ theorem futex_deadlock_free (hr : Reach (sys B) Init c) :
         right
         by_cases hpk : (t, (c.locals t).wait) ∈ c.g.parked
         · have hto : (c.locals t).timeout < 0 := by
-            by_contra hge
-            have hge' : 0 ≤ (c.locals t).timeout := by omega
-            obtain ⟨g', l', h⟩ := timeout_enabled B c.g (c.locals t) hpc (by rw [htid]; exact hpk) hge'
-            exact hp ⟨t, .timeout, g', l', h, by simp⟩
+            by_cases hlt : (c.locals t).timeout < 0
+            · exact hlt
+            · exfalso
+              have hge' : 0 ≤ (c.locals t).timeout := by omega
+              obtain ⟨g', l', h⟩ := timeout_enabled B c.g (c.locals t) hpc (by rw [htid]; exact hpk) hge'
+              exact hp ⟨t, .timeout, g', l', h, by simp⟩
           refine ⟨hpc, hpk, hto, ?_⟩
           cases hst : (c.g.waits (c.locals t).wait).status with
           | waiting => rfl
@@ -350,8 +352,9 @@ theorem wait_effective_address (defs : Defs) (ρ : Env) (k off : Nat) (x : BitVe
     split
     · rename_i h0
       subst h0
-      simp [CExpr.eval, hx, CVal.castInt]
-    · simp [CExpr.eval, hx, CVal.binop, CTy.common, CVal.ty, CVal.castInt, CPrim.arithU, BinOp.isCmp]
+      simp [CExpr.eval, hx, CVal.castInt, CVal.fromNat]
+    · simp [CExpr.eval, hx, CVal.binop, CTy.common, CTy.promote, CVal.ty, CVal.castInt, CVal.fromNat,
+        CPrim.arithU, BinOp.isCmp]
   · intro h
     unfold Spec.Futex.effectiveAddress at *
     rw [BitVec.toNat_add, BitVec.toNat_ofNat]
@@ -359,12 +362,81 @@ theorem wait_effective_address (defs : Defs) (ρ : Env) (k off : Nat) (x : BitVe
 
 /-! ### non-vacuity: the hypotheses are satisfiable and the interesting states are reachable -/
 
-/-- an initial configuration with two programs -/
+/-- follow an explicit schedule (thread, kind of step, index among the successors of that kind) -/
+def runSched (B : Nat) : List (Tid × Label × Nat) → Cfg G L → Option (Cfg G L)
+  | [], c => some c
+  | (t, lab, i) :: rest, c =>
+    match ((stepL B c.g (c.locals t)).filter (fun x => x.1 = lab))[i]? with
+    | some (_, g', l') => runSched B rest (c.set t g' l')
+    | none => none
+
+theorem runSched_reach {B : Nat} (s : List (Tid × Label × Nat)) (c0 c : Cfg G L)
+    (h0 : Reach (sys B) Init c0) (h : runSched B s c0 = some c) : Reach (sys B) Init c := by
+  induction s generalizing c0 with
+  | nil => simp [runSched] at h; subst h; exact h0
+  | cons x rest ih =>
+    obtain ⟨t, lab, i⟩ := x
+    unfold runSched at h
+    split at h
+    · rename_i lab' g' l' hget
+      refine ih _ (Reach.step h0 ?_) h
+      have hmem := List.mem_of_getElem? hget
+      have := (List.mem_filter.mp hmem).1
+      exact List.mem_map.mpr ⟨_, this, rfl⟩
+    · cases h
+
+theorem reach_of_runSched {B : Nat} (s : List (Tid × Label × Nat)) (c0 : Cfg G L) (p : Cfg G L → Bool)
+    (h0 : Reach (sys B) Init c0) (h : (runSched B s c0).any p = true) :
+    ∃ c, Reach (sys B) Init c ∧ p c = true := by
+  cases hc : runSched B s c0 with
+  | none => simp [hc] at h
+  | some c => exact ⟨c, runSched_reach s c0 c h0 hc, by simpa [hc] using h⟩
+
+/-- an initial configuration: thread 1 waits on address 16 (infinite timeout), thread 2 notifies it,
+    thread 3 waits on the colliding address 16 + 1024·4 with a finite timeout -/
 def exInit : Cfg G L :=
   ⟨G.init true (fun _ => 0), fun t =>
-    L.init t (if t = 1 then [.wait false 16 0 (-1)] else if t = 2 then [.notify 16 1] else [])⟩
+    L.init t (if t = 1 then [.wait false 16 0 (-1)] else if t = 2 then [.notify 16 1]
+              else if t = 3 then [.wait true 4112 0 5] else [])⟩
 
-example : Init exInit := ⟨⟨true, _, rfl⟩, fun t => ⟨_, rfl⟩⟩
-example : Reach (sys 1024) Init exInit := Reach.init ⟨⟨true, _, rfl⟩, fun t => ⟨_, rfl⟩⟩
+theorem exInit_init : Init exInit := ⟨⟨true, _, rfl⟩, fun _ => ⟨_, rfl⟩⟩
+
+private def r (n : Nat) (t : Tid) : List (Tid × Label × Nat) := List.replicate n (t, .run, 0)
+
+/-- thread 1 parked and Waiting while thread 2 is inside notify (hypotheses of `no_lost_wakeup`'s
+    setting are reachable: an enqueued waiter and a notifier on the same address) -/
+example : ∃ c, Reach (sys 1024) Init c ∧
+    ((c.locals 1).pc == .wParked && (c.locals 1).pc.enq && (c.locals 2).pc == .nLoop &&
+      (c.locals 2).addr == (c.locals 1).addr) = true :=
+  reach_of_runSched
+    (r 9 1 ++ r 6 2) exInit _
+    (Reach.init exInit_init) (by decide)
+
+/-- … the notifier reaches `nUnlock` having notified one waiter (`no_lost_wakeup`, `notify_count_running`) -/
+example : ∃ c, Reach (sys 1024) Init c ∧
+    ((c.locals 2).pc == .nUnlock && (c.locals 2).notified == 1 && c.g.marks.length == 1) = true :=
+  reach_of_runSched
+    (r 9 1 ++ r 9 2) exInit _
+    (Reach.init exInit_init) (by decide)
+
+/-- … both calls complete: wait returned 0, notify returned 1 (`wait_returns`, `notify_count_exact`) -/
+example : ∃ c, Reach (sys 1024) Init c ∧
+    (((c.locals 1).done.map (·.ret)) == [0] && ((c.locals 2).done.map (·.ret)) == [1]) = true :=
+  reach_of_runSched
+    (r 9 1 ++ r 10 2 ++ r 7 1) exInit _
+    (Reach.init exInit_init) (by decide)
+
+/-- … a timed waiter on a colliding address times out and returns 2 while thread 1 stays a
+    legitimately blocked waiter (`futex_deadlock_free`'s second disjunct is inhabited) -/
+example : ∃ c, Reach (sys 1024) Init c ∧
+    (((c.locals 3).done.map (·.ret)) == [2] && (c.locals 1).pc == .wParked) = true :=
+  reach_of_runSched
+    (r 9 1 ++ r 9 3 ++ [(3, .timeout, 0)] ++ r 7 3) exInit _
+    (Reach.init exInit_init) (by decide)
+
+/-- `wait_effective_address` with a non-zero offset: `si3+8U` with `si3 = 0xFFFFFFFC` wraps (the
+    specification's address 2^32+4 is out of bounds for every memory), with `si3 = 16` it is 24 -/
+example : (do let v ← (Emit.addrExpr 3 8).eval noDefs [("si3", .u32 16)]; v.castInt .u32) = .val (.u32 24) :=
+  (wait_effective_address noDefs [("si3", .u32 16)] 3 8 16 (by decide)).1
 
 end W2c2Verif.C17
